@@ -6,8 +6,10 @@ from sqlparse import sql, tokens as T
 
 RULE = ('queries built from known parts: WHERE condition x every closing clause (GROUP BY, ORDER BY, LIMIT, UNION, EXCEPT, HAVING, RETURNING, INTO, none, end of parenthesis) x nesting in subqueries; '
         'select/FROM lists of written items; calls f(args); CASE with written WHEN/THEN/ELSE parts; comparisons with written operands; typed literals; non-trivial = distinct query text')
-ASSUMPTIONS = ['the passes before each accessor deliver the children the accessor theorems assume: checked here on the real code and by S-TREE/S-ACC']
-PARTIAL = ['Where extent is a theorem over the grouping model; that lists/calls/CASE/comparisons are grouped as the accessor theorems assume is sampled here', 'single-argument calls whose argument is an expression/placeholder/*/NULL and select lists with literal-aliased or parenthesised first items are known findings (KF-C13-1, KF-C13-2)']
+ASSUMPTIONS = ['lexer/grouping/accessor models tied by S-TREE/S-ACC on the generated queries and by DOMAIN(clause) on the table of the in-context theorems (every skeleton, pinned or not, on the real code)']
+PARTIAL = ['Where extent: theorem for every input. Lists / calls / CASE / comparisons / typed literals in context: parametricity + table — the table-independent core is proved in the quick tier, the 290-skeleton table is evaluated by the compiled driver in the quick tier and decided by the kernel in the thorough tier (SqlPropsSlow.C13Table, about 22 min CPU); shapes outside the table (longer lists, deeper nesting, other whitespace token counts) are checked on the real code by the oracle',
+           'known findings KF-C13-1 (single expression argument), KF-C13-2 (literal with implicit alias / bare parenthesis as a list item), KF-C13-3 (typed literal as a list item) are pinned in the table as decided negative facts']
+THOROUGH_MODULES = ['SqlPropsSlow.C13Table']
 WS = [' ', '  ', '\n', '\t']
 NAMES = ['a', 'b1', 'col_x', 't.c', '"Q x"', 'sch.tbl.c']
 LITS = ['1', '42', "'s'", "'a,b'", '1.5']
@@ -160,6 +162,8 @@ def run(ctx):
         except Exception as e:
             ctx.fail('oracle raised %s in %s' % (type(e).__name__, f.__name__), '', observed=repr(e), required='no exception')
     ctx.samples += [short(t, 90) for t in texts[:4]]
+    if ctx.model.available:
+        domain_clause(ctx)
     if ctx.model.available and hasattr(streams, 's_acc'):
         sub = list(dict.fromkeys(texts))[: ctx.n(300, 4000)]
         streams.s_acc(ctx, sub)
@@ -167,6 +171,64 @@ def run(ctx):
             streams.s_tree(ctx, sub)
     else:
         ctx.notes.append('model driver unavailable: correspondence streams skipped')
+
+
+def _all_nodes(n):
+    yield n
+    if n.is_group:
+        for c in n.tokens:
+            yield from _all_nodes(c)
+
+
+def clause_canonical_on_real_code(kind, text, target, items):
+    """the canonical expectation of a clause skeleton evaluated on the real tree"""
+    stmts = sqlparse.parse(text)
+    if len(stmts) != 1:
+        return False
+    st = stmts[0]
+    if kind == 'identList':
+        lists = [n for n in st.tokens if isinstance(n, sql.IdentifierList)]
+        return len(lists) == 1 and [str(i) for i in lists[0].get_identifiers()] == items
+    if kind == 'params':
+        return any(isinstance(n, sql.Function) and str(n) == target and [str(p) for p in n.get_parameters()] == items for n in _all_nodes(st))
+    if kind == 'comparison':
+        return any(isinstance(n, sql.Comparison) and str(n) == target and [str(n.left), str(n.right)] == items for n in _all_nodes(st))
+    if kind == 'typedLiteral':
+        return any(isinstance(n, sql.TypedLiteral) and str(n) == target for n in _all_nodes(st))
+    if kind == 'cases':
+        return any(isinstance(n, sql.Case) and str(n) == target for n in _all_nodes(st))
+    return False
+
+
+def domain_clause(ctx):
+    """DOMAIN(clause): the compiled model evaluates the whole clause table as the kernel does in the thorough tier (pinned skeletons must be
+    non-canonical, all others canonical), and the real code agrees skeleton by skeleton"""
+    mo = ctx.model.ask(['clausecheck'])[0].split()
+    ctx.stream('DOMAIN(clause)', inputs=1, lines=1)
+    if mo[:1] != ['ok'] or mo[1] != mo[2]:
+        ctx.mismatch('DOMAIN(clause)', 'clausecheck', ' '.join(mo)[:300], 'every skeleton as recorded')
+    un = lambda w: '' if w == '-' else ''.join(chr(int(x, 16)) for x in w.split(','))
+    n = pinned = 0
+    for w in ctx.model.ask(['clausetexts'])[0].split()[1:]:
+        kind, pin, text, target, items = w.split('|')
+        text, target = un(text), un(target)
+        items = [un(x) for x in items.split(';')] if items else []
+        ctx.stream('DOMAIN(clause)', inputs=1, lines=1)
+        ctx.evaluations += 1
+        n += 1
+        try:
+            real = clause_canonical_on_real_code(kind, text, target, items)
+        except Exception as e:
+            real = 'raised ' + type(e).__name__
+        if pin == '1':
+            pinned += 1
+            if real is not False:
+                ctx.mismatch('DOMAIN(clause)', text, 'pinned: decided non-canonical in the model', 'real code: canonical=%r' % (real,))
+        elif real is not True:
+            ctx.fail('clause skeleton: the real tree does not have the clause node with the written parts', text, observed=real,
+                     required={'kind': kind, 'target': target, 'items': items})
+    ctx.dist['clause_skeletons'] = n
+    ctx.dist['clause_skeletons_pinned'] = pinned
 
 
 def replay_known(ctx, k):
